@@ -65,7 +65,8 @@ def _resolve_target(
         if obj is not UNDEFINED and _member_name(parent, target) not in parent:
             obj = UNDEFINED
     elif isinstance(parent, Sequence) and target != "-" and not _is_index(target):
-        # "#5", in or out of range.
+        # "#5", in or out of range, or "-1". `JSONPointer` resolves a negative
+        # token from the end of the array, but RFC 6902 has no such index.
         raise JSONPatchError(f"invalid array index {target!r}")
     return parent, obj
 
@@ -74,9 +75,11 @@ def _is_index(key: Union[int, str]) -> bool:
     """Return `True` if reference token _key_ is an array index.
 
     Depending on how a pointer was built, an index can be held as an int or as
-    a string of decimal digits.
+    a string of decimal digits. A negative number is not an RFC 6901 array index.
     """
-    return isinstance(key, int) or bool(RE_INDEX.fullmatch(key))
+    if isinstance(key, int):
+        return key >= 0
+    return bool(RE_INDEX.fullmatch(key)) and not key.startswith("-")
 
 
 def _array_index(key: Union[int, str]) -> int:
